@@ -40,12 +40,50 @@ def closed_form(c, nsteps):
     return c['init'] * lam(nsteps)
 
 
+LAMS = {0: lambda k: 1 / (1 + k), 1: lambda k: 0.5 * k + 1, 2: lambda k: 1 - k / 10}
+
+
+def defect_traj(c):
+    """what the RECORDED finding (live value not checkpointed: a restored scheduler restarts from the
+    fresh optimizer's initial value) predicts, op by op"""
+    init = c['init']
+    v = init * LAMS[c['lam']](0) if c['kind'] == 'lambda' else init
+    k = 0
+    out = [v]
+    for op in c['ops']:
+        if op == 'S':
+            k += 1
+            if c['kind'] == 'exp':
+                v = v * c['gamma']
+            elif c['kind'] == 'step':
+                if k % c['step_size'] == 0:
+                    v = c['gamma'] * v
+            else:
+                v = init * LAMS[c['lam']](k)
+        elif op == 'R':
+            v = init * LAMS[c['lam']](0) if c['kind'] == 'lambda' else init
+        out.append(v)
+    return out
+
+
 def oracle_case(ctx, c, res):
     """direct check of the property on the implementation's observations"""
     if res['err']:
         ctx.fail('sched-raises', 'scheduler sequence raised %s' % res['err'], c)
         return
     traj = [float.fromhex(h) for h in res['traj']]
+    if 'R' in c['ops']:
+        ideal = []
+        k = 0
+        for op in [None] + c['ops']:
+            k += op == 'S'
+            ideal.append(closed_form(c, k))
+        if traj != ideal:
+            if traj == defect_traj(c):
+                j = next(i for i in range(len(traj)) if traj[i] != ideal[i])
+                ctx.fail('restore-live-value', 'restored scheduler does not continue the trajectory: op #%d gives %r, uninterrupted %r'
+                         % (j, traj[j], ideal[j]), c)
+                return
     k = 0
     oi = 0
     for j, op in enumerate([None] + c['ops']):
